@@ -5,7 +5,7 @@ STREAMS = ["c10"]
 NEEDS_BINARY = True
 HARNESS_ARGS = ("-rdpgw", os.path.join(core.BUILD, "rdpgw"))
 RULE = ("checked handlers of the model against the real functions: readHeader on every length 0..20 x 22 size fields "
-        "(0, 1, 7..10, 15..17, 4095..4097, 65535..65537, 2^31-1, 2^31, 2^32-1, len-1, len, len+1) plus random buffers; "
+        "(0, 1, 7..10, 15..17, 4095..4097, 65535..65537, 2^31-1, 2^31, 2^32-1, len-1, len, len+1) plus random buffers; DATA packets of 100..12000 bytes delivered in two reads with the first read of 1..4096 bytes through the real packet loop; "
         "DecodeUTF16 on every string of length 0..3 over 11 boundary bytes plus random strings of both parities; the real NTLM "
         "middleware (scripted authentication service) on every Authorization value of length 0..3 over {N,T,L,M,space,e,g}, every "
         "prefix of 12 scheme-like values and random payloads. Survival questions of the real code: the NTLM verifier on every "
@@ -26,6 +26,8 @@ ASSUMPTIONS = ["partial: absence of panics below the modelled sites (third-party
 
 
 def nontrivial(c):
+    if c.kind == "process":
+        return True
     if c.kind == "hdrc":
         return len(c.fields[0]) >= 16
     if c.kind == "utf16c":
